@@ -239,14 +239,19 @@ def delegate_arm(call, depth):
     return z if z is not None else arm
 
 
+DIVISOR = "rhs"  # name of the second value parameter (set per function)
+
+
 def zero_guarded(e):
-    """`0 if rhs == 0 else E` (or `E if rhs != 0 else 0`, `rhs and E`)"""
+    """`0 if rhs == 0 else E` (or `E if rhs != 0 else 0`, `rhs and E`), rhs
+    being the function's second value parameter"""
+    d = DIVISOR
     if isinstance(e, ast.IfExp):
         t = ast.unparse(e.test).replace(" ", "")
-        if t in ("rhs==0", "0==rhs", "notrhs") and isinstance(
+        if t in (f"{d}==0", f"0=={d}", f"not{d}") and isinstance(
                 e.body, ast.Constant) and e.body.value == 0:
             return e.orelse
-        if t in ("rhs!=0", "rhs", "0!=rhs") and isinstance(
+        if t in (f"{d}!=0", d, f"0!={d}") and isinstance(
                 e.orelse, ast.Constant) and e.orelse.value == 0:
             return e.body
     return None
@@ -260,6 +265,9 @@ def check(chk, repo, tier):
     EF = mod.rel
     for name, spec in FUNCS.items():
         fn = mod.function(name)
+        global DIVISOR
+        vals = [a.arg for a in fn.args.args if a.arg != "ctx"]
+        DIVISOR = vals[1] if len(vals) > 1 else "rhs"
         arm, line = num_num_arm(fn)
         if arm is None:
             raise AnalysisError(
